@@ -124,6 +124,9 @@ template <class Cn, class E, bool Static> struct Runner {
         else if (name == "Destroy") { c(k).~Cn(); exists[k] = false; unreg(k); }
         else if (name == "PushBack") { E v(from_code<E>(a)); c(k).push_back(v); }
         else if (name == "EmplaceBack") { if constexpr (std::is_same<E, double>::value) c(k).emplace_back(from_code<E>(a)); else c(k).emplace_back((int)a); }
+        else if (name == "PushBackSelf") { if constexpr (!Static) c(k).push_back(c(k)[a]); else unsupported(name); }            // the argument refers to an element of the vector itself
+        else if (name == "EmplaceBackSelf") { if constexpr (!Static) c(k).emplace_back(c(k)[a]); else unsupported(name); }
+        else if (name == "InsertSelf") { if constexpr (!Static) { auto it = c(k).insert(c(k).begin() + a, c(k)[b]); ret = it - c(k).begin(); } else unsupported(name); }
         else if (name == "Erase") { if constexpr (requires { c(k).erase(c(k).begin(), c(k).begin()); }) c(k).erase(c(k).begin() + a, c(k).begin() + b); else unsupported(name); }
         else if (name == "Resize") { c(k).resize(a); }
         else if (name == "Clear") { c(k).clear(); }
